@@ -92,6 +92,7 @@ type obSummary struct {
 	Asserts      int            `json:"assertions_checked"`
 	Trivial      int            `json:"assertions_folded_to_true"`
 	Verdicts     int            `json:"verdict_queries"`
+	CritChecks   int            `json:"critical_section_checks,omitempty"`
 	Queries      int            `json:"solver_queries"`
 	Sat          int            `json:"sat"`
 	Unsat        int            `json:"unsat"`
@@ -168,6 +169,14 @@ func report(l *Loaded, cfg *Config, spec *Spec, obs []*Obligation, results map[s
 			status = "inconclusive"
 			s.Inconclusive = append(s.Inconclusive, "vacuous: reach labels not hit: "+strings.Join(s.Missing, ","))
 			fmt.Printf("INCONCLUSIVE property=%s obligation=%s reason=vacuous, labels not reached: %s\n", prop, o.Name, strings.Join(s.Missing, ","))
+		}
+		if len(o.Critical) > 0 {
+			s.CritChecks = r.CritChecks
+			if r.CritChecks == 0 && len(r.Failures) == 0 && r.Aborted == "" {
+				status = "inconclusive"
+				s.Inconclusive = append(s.Inconclusive, "vacuous: no guarded call was executed inside a critical-section operation")
+				fmt.Printf("INCONCLUSIVE property=%s obligation=%s reason=vacuous, no guarded call inside the listed operations\n", prop, o.Name)
+			}
 		}
 		if o.Expect == "violated" {
 			// sensitivity twin: it must be violated, and natively too
